@@ -1,144 +1,475 @@
-/-! Prototype C13: `check_missing` (base class; a call is missing when an allele is ≥ 254). -/
+/-!
+# C13 model: the quality-control checks of `Genotypes` / `GenotypesAncestry`
+
+`check_missing`, `check_biallelic`, `check_phase`, `check_maf` over list matrices (rows = samples).
+`np.nonzero` is modelled literally (row-major list of index pairs), `np.delete(a, idx)` by its contract
+("remove the elements whose index occurs in `idx`", repeats allowed).  The ancestry array of
+`GenotypesAncestry` is carried in parallel.
+-/
 namespace QC
 
-abbrev Cell := Nat × Nat            -- the two alleles (phase plane not involved here)
-abbrev Row := List Cell             -- one sample
-def cellMissing (c : Cell) : Bool := decide (c.1 ≥ 254) || decide (c.2 ≥ 254)
-def rowMissing (r : Row) : Bool := r.any cellMissing
+structure Cell where
+  a : Nat
+  b : Nat
+  ph : Bool          -- phase flag of the call (ignored when the object has no phase plane)
+deriving Repr, DecidableEq, Inhabited
 
-/-- variant indices of the missing cells of one row -/
-def rowHits (j : Nat) : Row → List Nat
-  | [] => []
-  | c :: t => if cellMissing c then j :: rowHits (j+1) t else rowHits (j+1) t
+abbrev Mat := List (List Cell)
 
-/-- `np.nonzero(missing)`: (sample, variant) pairs in row-major order, rows numbered from `k` -/
-def nonzeroFrom (k : Nat) : List Row → List (Nat × Nat)
-  | [] => []
-  | r :: rest => (rowHits 0 r).map (fun j => (k, j)) ++ nonzeroFrom (k+1) rest
+/-- keep the elements whose index is not dropped -/
+def keepIdx {α} (l : List α) (drop : Nat → Bool) : List α :=
+  (l.zipIdx.filter (fun p => !drop p.2)).map (·.1)
 
-/-- `np.delete(a, idx, axis=0)` (repeated indices allowed), elements numbered from `k` -/
-def npDeleteFrom {α} (k : Nat) : List α → List Nat → List α
-  | [], _ => []
-  | a :: t, idx => if idx.contains k then npDeleteFrom (k+1) t idx else a :: npDeleteFrom (k+1) t idx
+/-- contract of `np.delete(l, idx)` along the axis of `l` -/
+def npDelete {α} (l : List α) (idx : List Nat) : List α := keepIdx l (fun i => idx.contains i)
 
-inductive Res
-  | ok (samples : List String) (rows : List Row)
-  | raised (sample variant : Nat)        -- indices named in the error message
+/-- `np.nonzero(mask)` for `mask[i][j] = p (m[i][j])`: index pairs in row-major order -/
+def nonzero (p : Cell → Bool) (m : Mat) : List (Nat × Nat) :=
+  m.zipIdx.flatMap (fun ri => (ri.1.zipIdx.filter (fun cj => p cj.1)).map (fun cj => (ri.2, cj.2)))
+
+structure G where
+  samples : List String
+  vars : List String
+  data : Mat
+  anc : Option (List (List (Nat × Nat)))
+  hasPhase : Bool      -- the third plane is present
+  isBool : Bool        -- dtype is bool (after `check_biallelic`)
+  ancestryClass : Bool -- `GenotypesAncestry` (missing means `== 255` there, `>= 254` in the base class)
 deriving Repr
 
-def checkMissing (discard : Bool) (samples : List String) (rows : List Row) : Res :=
-  match nonzeroFrom 0 rows with
-  | [] => .ok samples rows
+inductive Out
+  | ok (g : G)
+  | raised (sample variant : Nat)    -- indices of the sample and variant named in the error message
+deriving Repr
+
+def isMissing (g : G) (c : Cell) : Bool :=
+  !g.isBool && (if g.ancestryClass then (c.a == 255 || c.b == 255) else (decide (c.a ≥ 254) || decide (c.b ≥ 254)))
+
+def isMulti (c : Cell) : Bool := decide (c.a > 1) || decide (c.b > 1)
+
+def isUnphasedHet (g : G) (c : Cell) : Bool :=
+  (c.a != c.b) && (g.isBool || (decide (c.a < 254) && decide (c.b < 254))) && !c.ph
+
+/-- `check_missing(discard_also)` -/
+def checkMissing (discard : Bool) (g : G) : Out :=
+  match nonzero (isMissing g) g.data with
+  | [] => .ok g
   | (i, j) :: rest =>
     if discard then
       let idx := ((i, j) :: rest).map (·.1)
-      .ok (npDeleteFrom 0 samples idx) (npDeleteFrom 0 rows idx)
+      .ok { g with data := npDelete g.data idx, samples := npDelete g.samples idx,
+                   anc := g.anc.map (fun a => npDelete a idx) }
     else .raised i j
 
-theorem rowHits_nil_iff (r : Row) (j : Nat) : rowHits j r = [] ↔ rowMissing r = false := by
-  induction r generalizing j with
-  | nil => simp [rowHits, rowMissing]
-  | cons c t ih =>
-    unfold rowHits rowMissing
-    by_cases hc : cellMissing c
-    · simp [hc]
-    · simp only [hc, Bool.false_eq_true, ↓reduceIte, List.any_cons, Bool.false_or]
-      exact ih (j+1)
+def toBool (c : Cell) : Cell := { c with a := if c.a = 0 then 0 else 1, b := if c.b = 0 then 0 else 1 }
 
-theorem nonzeroFrom_ge (k : Nat) (rows : List Row) : ∀ p ∈ nonzeroFrom k rows, k ≤ p.1 := by
-  induction rows generalizing k with
-  | nil => simp [nonzeroFrom]
-  | cons r rest ih =>
+/-- `check_biallelic(discard_also)` (also converts the data to booleans) -/
+def checkBiallelic (discard : Bool) (g : G) : Out :=
+  if g.isBool then .ok g else
+  match nonzero isMulti g.data with
+  | [] => .ok { g with data := g.data.map (·.map toBool), isBool := true }
+  | (i, j) :: rest =>
+    if discard then
+      let idx := ((i, j) :: rest).map (·.2)
+      .ok { g with data := (g.data.map (fun r => npDelete r idx)).map (·.map toBool),
+                   vars := npDelete g.vars idx,
+                   anc := g.anc.map (fun a => a.map (fun r => npDelete r idx)),
+                   isBool := true }
+    else .raised i j
+
+/-- `check_phase()` -/
+def checkPhase (g : G) : Out :=
+  if !g.hasPhase then .ok g else
+  match nonzero (isUnphasedHet g) g.data with
+  | [] => .ok { g with hasPhase := false }
+  | (i, j) :: _ => .raised i j
+
+/-- number of non-reference strands of variant `j` -/
+def altCount (m : Mat) (j : Nat) : Nat :=
+  (m.map (fun r => match r[j]? with
+    | some c => (if c.a = 0 then 0 else 1) + (if c.b = 0 then 0 else 1)
+    | none => 0)).sum
+
+/-- `maf < thr` decided in integers: `min(k, 2n-k) / 2n < num/den`; with no samples numpy computes NaN and
+    every comparison is false -/
+def rare (n : Nat) (k : Nat) (num den : Nat) : Bool :=
+  decide (0 < n) && decide (min k (2*n - k) * den < num * (2*n))
+
+/-- `check_maf(threshold = num/den, discard_also, warn_only)`; returns the object and the list of
+    minor-allele counts `(min(k,2n-k), 2n)` of the variants that remain -/
+def checkMaf (num den : Nat) (discard warnOnly : Bool) (g : G) : Out × List (Nat × Nat) :=
+  let n := g.data.length
+  let ks := (List.range g.vars.length).map (altCount g.data)
+  let mafs := ks.map (fun k => (min k (2*n - k), 2*n))
+  let idx := (ks.zipIdx.filter (fun kj => rare n kj.1 num den)).map (·.2)
+  match idx with
+  | [] => (.ok g, mafs)
+  | j :: _ =>
+    if discard then
+      (.ok { g with data := g.data.map (fun r => npDelete r idx), vars := npDelete g.vars idx,
+                    anc := g.anc.map (fun a => a.map (fun r => npDelete r idx)) }, npDelete mafs idx)
+    else if warnOnly then (.ok g, mafs)
+    else (.raised 0 j, mafs)
+
+/-! ## lemmas -/
+
+theorem mem_nonzero (p : Cell → Bool) (m : Mat) (i j : Nat) :
+    (i, j) ∈ nonzero p m ↔ ∃ r c, m[i]? = some r ∧ r[j]? = some c ∧ p c = true := by
+  unfold nonzero
+  simp only [List.mem_flatMap, List.mem_map, List.mem_filter, Prod.mk.injEq, Prod.exists]
+  constructor
+  · rintro ⟨r, i', hri, c, j', ⟨hcj, hp⟩, rfl, rfl⟩
+    exact ⟨r, c, List.mem_zipIdx_iff_getElem?.mp hri, List.mem_zipIdx_iff_getElem?.mp hcj, hp⟩
+  · rintro ⟨r, c, hr, hc, hp⟩
+    exact ⟨r, i, List.mem_zipIdx_iff_getElem?.mpr hr, c, j, ⟨List.mem_zipIdx_iff_getElem?.mpr hc, hp⟩, rfl, rfl⟩
+
+theorem nonzero_nil_iff (p : Cell → Bool) (m : Mat) :
+    nonzero p m = [] ↔ ∀ r ∈ m, ∀ c ∈ r, p c = false := by
+  constructor
+  · intro h r hr c hc
+    obtain ⟨i, hi, rfl⟩ := List.getElem_of_mem hr
+    obtain ⟨j, hj, rfl⟩ := List.getElem_of_mem hc
+    cases hp : p (m[i][j]) with
+    | false => rfl
+    | true =>
+      have : (i, j) ∈ nonzero p m :=
+        (mem_nonzero p m i j).mpr ⟨m[i], m[i][j], List.getElem?_eq_getElem hi, List.getElem?_eq_getElem hj, hp⟩
+      rw [h] at this; cases this
+  · intro h
+    apply List.eq_nil_iff_forall_not_mem.mpr
+    rintro ⟨i, j⟩ hm
+    obtain ⟨r, c, hr, hc, hp⟩ := (mem_nonzero p m i j).mp hm
+    have := h r (List.mem_of_getElem? hr) c (List.mem_of_getElem? hc)
+    rw [this] at hp; cases hp
+
+theorem mem_keepIdx {α} (l : List α) (drop : Nat → Bool) (x : α) :
+    x ∈ keepIdx l drop ↔ ∃ i, l[i]? = some x ∧ drop i = false := by
+  unfold keepIdx
+  simp only [List.mem_map, List.mem_filter, Prod.exists, exists_and_right, exists_eq_right,
+    Bool.not_eq_eq_eq_not, Bool.not_true]
+  constructor
+  · rintro ⟨i, hm, hd⟩; exact ⟨i, List.mem_zipIdx_iff_getElem?.mp hm, hd⟩
+  · rintro ⟨i, hm, hd⟩; exact ⟨i, List.mem_zipIdx_iff_getElem?.mpr hm, hd⟩
+
+/-- `keepIdx` is an order-preserving selection: it is the sublist of the kept positions -/
+theorem keepIdx_sublist {α} (l : List α) (drop : Nat → Bool) : (keepIdx l drop).Sublist l := by
+  unfold keepIdx
+  have h1 : ((l.zipIdx.filter (fun p => !drop p.2)).map (·.1)).Sublist (l.zipIdx.map (·.1)) :=
+    List.Sublist.map _ List.filter_sublist
+  have h2 : l.zipIdx.map (·.1) = l := by
+    simp [List.zipIdx_map_fst]
+  rw [h2] at h1; exact h1
+
+theorem keepIdx_none {α} (l : List α) (drop : Nat → Bool) (h : ∀ i, i < l.length → drop i = false) :
+    keepIdx l drop = l := by
+  unfold keepIdx
+  have : l.zipIdx.filter (fun p => !drop p.2) = l.zipIdx := by
+    apply List.filter_eq_self.mpr
     intro p hp
-    simp only [nonzeroFrom, List.mem_append, List.mem_map] at hp
-    rcases hp with ⟨j, _, rfl⟩ | h
-    · exact Nat.le_refl _
-    · have := ih (k+1) p h; omega
+    obtain ⟨x, i⟩ := p
+    have := List.mem_zipIdx_iff_getElem?.mp hp
+    have hi : i < l.length := by
+      rcases Nat.lt_or_ge i l.length with h' | h'
+      · exact h'
+      · simp at this; rw [List.getElem?_eq_none h'] at this; cases this
+    simp [h i hi]
+  rw [this]; simp [List.zipIdx_map_fst]
 
-/-- discard mode removes exactly the samples with a missing allele and keeps the others in order;
-    the same index list is applied to any parallel array (`samples`, and the ancestry array of the subclass) -/
-theorem delete_eq_filter {α} (k : Nat) : ∀ (rows : List Row) (par : List α) (pre : List Nat),
-    par.length = rows.length → (∀ i ∈ pre, i < k) →
-    npDeleteFrom k par (pre ++ (nonzeroFrom k rows).map (·.1)) =
-      ((par.zip rows).filter (fun pr => !rowMissing pr.2)).map (·.1)
-  | [], [], _, _, _ => by simp [npDeleteFrom]
-  | [], _ :: _, _, hl, _ => by simp at hl
-  | _ :: _, [], _, hl, _ => by simp at hl
-  | r :: rest, a :: par, pre, hl, hpre => by
-    have hl' : par.length = rest.length := by simpa using hl
-    have hcont : (pre ++ (nonzeroFrom k (r :: rest)).map (·.1)).contains k = rowMissing r := by
-      simp only [nonzeroFrom, List.map_append, List.map_map]
-      cases hm : rowMissing r with
-      | false =>
-        have := (rowHits_nil_iff r 0).mpr hm
-        rw [this]
-        simp only [List.map_nil, List.nil_append, List.contains_eq_mem, decide_eq_false_iff_not,
-          List.mem_append, List.mem_map, not_or, not_exists, not_and]
-        refine ⟨fun h => by have := hpre k h; omega, ?_⟩
-        intro p hp heq
-        have := nonzeroFrom_ge (k+1) rest p hp
-        omega
-      | true =>
-        have hne : rowHits 0 r ≠ [] := fun h => by
-          have := (rowHits_nil_iff r 0).mp h; rw [hm] at this; cases this
-        obtain ⟨j, t, hjt⟩ := List.exists_cons_of_ne_nil hne
-        simp [hjt]
-    unfold npDeleteFrom
-    rw [hcont]
-    -- recursive call: move this row's own entries into the prefix
-    have hrec := delete_eq_filter (k+1) rest par (pre ++ ((rowHits 0 r).map (fun j => (k, j))).map (·.1)) hl'
-      (by
-        intro i hi
-        rcases List.mem_append.mp hi with h | h
-        · have := hpre i h; omega
-        · simp only [List.map_map, List.mem_map, Function.comp] at h
-          obtain ⟨_, _, rfl⟩ := h; omega)
-    have hidx : pre ++ (nonzeroFrom k (r :: rest)).map (·.1) =
-        (pre ++ ((rowHits 0 r).map (fun j => (k, j))).map (·.1)) ++ (nonzeroFrom (k+1) rest).map (·.1) := by
-      simp [nonzeroFrom, List.append_assoc]
-    rw [hidx, hrec]
-    cases hm : rowMissing r <;> simp [hm]
+theorem keepIdx_cons {γ} (x : γ) (xs : List γ) (drop : Nat → Bool) : keepIdx (x :: xs) drop =
+    (if drop 0 then [] else [x]) ++ keepIdx xs (fun i => drop (i+1)) := by
+  unfold keepIdx
+  rw [List.zipIdx_cons]
+  simp only [List.filter_cons, Nat.zero_add]
+  have hshift : (xs.zipIdx 1).filter (fun p => !drop p.2) =
+      (xs.zipIdx.filter (fun p => !drop (p.2 + 1))).map (fun p => (p.1, p.2 + 1)) := by
+    rw [show xs.zipIdx 1 = xs.zipIdx.map (fun p => (p.1, p.2 + 1)) from by
+      rw [List.zipIdx_succ]]
+    rw [List.filter_map]; rfl
+  cases hd : drop 0 <;> simp [hshift, List.map_map, Function.comp_def]
 
-theorem zip_self_filter {α} (p : α → Bool) : ∀ (l : List α),
-    ((l.zip l).filter (fun pr => p pr.2)).map (·.1) = l.filter p
-  | [] => by simp
-  | a :: t => by
-    have ih := zip_self_filter p t
-    cases hp : p a <;> simp [List.filter_cons, hp, ih]
+/-- two parallel lists filtered with the same index set stay aligned -/
+theorem keepIdx_zip {α β} (l : List α) (l' : List β) (drop : Nat → Bool) (h : l.length = l'.length) :
+    keepIdx (l.zip l') drop = (keepIdx l drop).zip (keepIdx l' drop) := by
+  induction l generalizing l' drop with
+  | nil => cases l' <;> simp [keepIdx]
+  | cons a t ih =>
+    cases l' with
+    | nil => simp at h
+    | cons b t' =>
+      have ht : t.length = t'.length := by simpa using h
+      rw [List.zip_cons_cons, keepIdx_cons, keepIdx_cons, keepIdx_cons, ih t' (fun i => drop (i+1)) ht]
+      cases hd : drop 0 <;> simp
 
-theorem discard_exact (samples : List String) (rows : List Row) (h : samples.length = rows.length) :
-    ∃ s' r', checkMissing true samples rows = .ok s' r' ∧
-      r' = rows.filter (fun r => !rowMissing r) ∧
-      s' = ((samples.zip rows).filter (fun pr => !rowMissing pr.2)).map (·.1) := by
+/-! ## the checks -/
+
+def rowHas (p : Cell → Bool) (m : Mat) (i : Nat) : Prop := ∃ r c, m[i]? = some r ∧ c ∈ r ∧ p c = true
+def colHas (p : Cell → Bool) (m : Mat) (j : Nat) : Prop := ∃ r c, r ∈ m ∧ r[j]? = some c ∧ p c = true
+
+theorem contains_fst_nonzero (p : Cell → Bool) (m : Mat) (i : Nat) :
+    ((nonzero p m).map (·.1)).contains i = true ↔ rowHas p m i := by
+  simp only [List.contains_eq_mem, List.mem_map, Prod.exists, exists_and_right, exists_eq_right,
+    decide_eq_true_eq]
+  constructor
+  · rintro ⟨j, hm⟩
+    obtain ⟨r, c, hr, hc, hp⟩ := (mem_nonzero p m i j).mp hm
+    exact ⟨r, c, hr, List.mem_of_getElem? hc, hp⟩
+  · rintro ⟨r, c, hr, hc, hp⟩
+    obtain ⟨j, hj, rfl⟩ := List.getElem_of_mem hc
+    exact ⟨j, (mem_nonzero p m i j).mpr ⟨r, r[j], hr, List.getElem?_eq_getElem hj, hp⟩⟩
+
+theorem contains_snd_nonzero (p : Cell → Bool) (m : Mat) (j : Nat) :
+    ((nonzero p m).map (·.2)).contains j = true ↔ colHas p m j := by
+  simp only [List.contains_eq_mem, List.mem_map, Prod.exists, exists_eq_right, decide_eq_true_eq]
+  constructor
+  · rintro ⟨i, hm⟩
+    obtain ⟨r, c, hr, hc, hp⟩ := (mem_nonzero p m i j).mp hm
+    exact ⟨r, c, List.mem_of_getElem? hr, hc, hp⟩
+  · rintro ⟨r, c, hr, hc, hp⟩
+    obtain ⟨i, hi, rfl⟩ := List.getElem_of_mem hr
+    exact ⟨i, (mem_nonzero p m i j).mpr ⟨m[i], c, List.getElem?_eq_getElem hi, hc, hp⟩⟩
+
+/-- shape of a raise/no-raise decision shared by the three `np.nonzero`-based checks -/
+theorem nonzero_cases (p : Cell → Bool) (m : Mat) :
+    (nonzero p m = [] ∧ ∀ r ∈ m, ∀ c ∈ r, p c = false) ∨
+    (∃ i j rest, nonzero p m = (i, j) :: rest ∧ ∃ r c, m[i]? = some r ∧ r[j]? = some c ∧ p c = true) := by
+  cases h : nonzero p m with
+  | nil => exact .inl ⟨rfl, (nonzero_nil_iff p m).mp h⟩
+  | cons x rest =>
+    obtain ⟨i, j⟩ := x
+    refine .inr ⟨i, j, rest, rfl, ?_⟩
+    exact (mem_nonzero p m i j).mp (by rw [h]; exact List.mem_cons_self)
+
+/-! ### check_missing -/
+
+theorem checkMissing_raises_iff (g : G) :
+    (∃ i j, checkMissing false g = .raised i j) ↔ ∃ r ∈ g.data, ∃ c ∈ r, isMissing g c = true := by
   unfold checkMissing
-  cases hnz : nonzeroFrom 0 rows with
+  rcases nonzero_cases (isMissing g) g.data with ⟨h, hall⟩ | ⟨i, j, rest, h, r, c, hr, hc, hp⟩
+  · rw [h]; simp only [false_iff, reduceCtorEq, exists_false, not_exists, not_and]
+    intro r hr c hc hp; rw [hall r hr c hc] at hp; cases hp
+  · rw [h]; simp only [Bool.false_eq_true, ↓reduceIte, Out.raised.injEq, exists_and_left, exists_eq',
+      and_true, true_iff]
+    exact ⟨r, List.mem_of_getElem? hr, c, List.mem_of_getElem? hc, hp⟩
+
+theorem checkMissing_names_offender (g : G) (i j : Nat) (h : checkMissing false g = .raised i j) :
+    ∃ r c, g.data[i]? = some r ∧ r[j]? = some c ∧ isMissing g c = true := by
+  unfold checkMissing at h
+  rcases nonzero_cases (isMissing g) g.data with ⟨h0, _⟩ | ⟨i', j', rest, h0, hex⟩
+  · rw [h0] at h; cases h
+  · rw [h0] at h; simp only [Bool.false_eq_true, ↓reduceIte, Out.raised.injEq] at h
+    obtain ⟨rfl, rfl⟩ := h; exact hex
+
+/-- discard mode: exactly the samples with a missing allele are removed, from the data, the sample list
+    and the ancestry array alike; variants are untouched -/
+theorem checkMissing_discard (g : G) :
+    ∃ g' drop, checkMissing true g = .ok g' ∧ (∀ i, drop i = true ↔ rowHas (isMissing g) g.data i) ∧
+      g'.data = keepIdx g.data drop ∧ g'.samples = keepIdx g.samples drop ∧
+      g'.anc = g.anc.map (fun a => keepIdx a drop) ∧ g'.vars = g.vars ∧
+      g'.isBool = g.isBool ∧ g'.hasPhase = g.hasPhase ∧ g'.ancestryClass = g.ancestryClass := by
+  unfold checkMissing
+  rcases nonzero_cases (isMissing g) g.data with ⟨h0, hall⟩ | ⟨i, j, rest, h0, _⟩
+  · rw [h0]
+    refine ⟨g, fun _ => false, rfl, fun i => ?_, ?_, ?_, ?_, rfl, rfl, rfl, rfl⟩
+    · simp only [Bool.false_eq_true, false_iff]
+      rintro ⟨r, c, hr, hc, hp⟩
+      rw [hall r (List.mem_of_getElem? hr) c hc] at hp; cases hp
+    · exact (keepIdx_none _ _ (fun _ _ => rfl)).symm
+    · exact (keepIdx_none _ _ (fun _ _ => rfl)).symm
+    · cases g.anc with
+      | none => rfl
+      | some a => simp only [Option.map_some]; rw [keepIdx_none _ _ (fun _ _ => rfl)]
+  · rw [h0]; simp only [↓reduceIte]
+    refine ⟨_, fun i' => (((i, j) :: rest).map (·.1)).contains i', rfl, ?_, rfl, rfl, rfl, rfl, rfl, rfl, rfl⟩
+    intro i'; rw [← h0]; exact contains_fst_nonzero _ _ _
+
+/-- postcondition of discard mode: no missing allele is left -/
+theorem checkMissing_discard_post (g g' : G) (h : checkMissing true g = .ok g') :
+    ∀ r ∈ g'.data, ∀ c ∈ r, isMissing g' c = false := by
+  obtain ⟨g'', drop, h1, hdrop, hdata, _, _, _, hb, _, hac⟩ := checkMissing_discard g
+  rw [h] at h1; cases h1
+  intro r hr c hc
+  rw [hdata] at hr
+  obtain ⟨i, hi, hd⟩ := (mem_keepIdx _ _ _).mp hr
+  cases hp : isMissing g' c with
+  | false => rfl
+  | true =>
+    have hp' : isMissing g c = true := by simpa [isMissing, hb, hac] using hp
+    have : drop i = true := (hdrop i).mpr ⟨r, c, hi, hc, hp'⟩
+    rw [this] at hd; cases hd
+
+/-! ### check_biallelic -/
+
+theorem checkBiallelic_raises_iff (g : G) (hb : g.isBool = false) :
+    (∃ i j, checkBiallelic false g = .raised i j) ↔ ∃ r ∈ g.data, ∃ c ∈ r, isMulti c = true := by
+  unfold checkBiallelic
+  simp only [hb, Bool.false_eq_true, ↓reduceIte]
+  rcases nonzero_cases isMulti g.data with ⟨h, hall⟩ | ⟨i, j, rest, h, r, c, hr, hc, hp⟩
+  · rw [h]; simp only [false_iff, reduceCtorEq, exists_false, not_exists, not_and]
+    intro r hr c hc hp; rw [hall r hr c hc] at hp; cases hp
+  · rw [h]; simp only [Out.raised.injEq, exists_and_left, exists_eq', and_true, true_iff]
+    exact ⟨r, List.mem_of_getElem? hr, c, List.mem_of_getElem? hc, hp⟩
+
+theorem checkBiallelic_names_offender (g : G) (i j : Nat) (h : checkBiallelic false g = .raised i j) :
+    ∃ r c, g.data[i]? = some r ∧ r[j]? = some c ∧ isMulti c = true := by
+  unfold checkBiallelic at h
+  cases hb : g.isBool with
+  | true => simp [hb] at h
+  | false =>
+    simp only [hb, Bool.false_eq_true, ↓reduceIte] at h
+    rcases nonzero_cases isMulti g.data with ⟨h0, _⟩ | ⟨i', j', rest, h0, hex⟩
+    · rw [h0] at h; cases h
+    · rw [h0] at h; simp only [Out.raised.injEq] at h
+      obtain ⟨rfl, rfl⟩ := h; exact hex
+
+/-- discard mode: exactly the variants with an allele index above 1 are removed — from every data row,
+    from the variant list and from every ancestry row — and the remaining data become booleans -/
+theorem checkBiallelic_discard (g : G) (hb : g.isBool = false) :
+    ∃ g' drop, checkBiallelic true g = .ok g' ∧ (∀ j, drop j = true ↔ colHas isMulti g.data j) ∧
+      g'.data = (g.data.map (fun r => keepIdx r drop)).map (·.map toBool) ∧
+      g'.vars = keepIdx g.vars drop ∧
+      g'.anc = g.anc.map (fun a => a.map (fun r => keepIdx r drop)) ∧
+      g'.samples = g.samples ∧ g'.isBool = true := by
+  unfold checkBiallelic
+  simp only [hb, Bool.false_eq_true, ↓reduceIte]
+  rcases nonzero_cases isMulti g.data with ⟨h0, hall⟩ | ⟨i, j, rest, h0, _⟩
+  · rw [h0]
+    refine ⟨_, fun _ => false, rfl, fun j => ?_, ?_, ?_, ?_, rfl, rfl⟩
+    · simp only [Bool.false_eq_true, false_iff]
+      rintro ⟨r, c, hr, hc, hp⟩
+      rw [hall r hr c (List.mem_of_getElem? hc)] at hp; cases hp
+    · simp only [keepIdx_none _ _ (fun _ _ => rfl), List.map_id']
+    · exact (keepIdx_none _ _ (fun _ _ => rfl)).symm
+    · cases g.anc with
+      | none => rfl
+      | some a => simp only [Option.map_some, keepIdx_none _ _ (fun _ _ => rfl), List.map_id']
+  · rw [h0]; simp only [↓reduceIte]
+    refine ⟨_, fun j' => (((i, j) :: rest).map (·.2)).contains j', rfl, ?_, rfl, rfl, rfl, rfl, rfl⟩
+    intro j'; rw [← h0]; exact contains_snd_nonzero _ _ _
+
+/-- postcondition (both modes, when no error is raised): every allele is 0 or 1 -/
+theorem toBool_le_one (c : Cell) : (toBool c).a ≤ 1 ∧ (toBool c).b ≤ 1 := by
+  unfold toBool; constructor <;> (simp only; split <;> omega)
+
+/-! ### check_phase -/
+
+theorem checkPhase_raises_iff (g : G) (hp : g.hasPhase = true) :
+    (∃ i j, checkPhase g = .raised i j) ↔ ∃ r ∈ g.data, ∃ c ∈ r, isUnphasedHet g c = true := by
+  unfold checkPhase
+  simp only [hp, Bool.not_true, Bool.false_eq_true, ↓reduceIte]
+  rcases nonzero_cases (isUnphasedHet g) g.data with ⟨h, hall⟩ | ⟨i, j, rest, h, r, c, hr, hc, hpc⟩
+  · rw [h]; simp only [false_iff, reduceCtorEq, exists_false, not_exists, not_and]
+    intro r hr c hc hp'; rw [hall r hr c hc] at hp'; cases hp'
+  · rw [h]; simp only [Out.raised.injEq, exists_and_left, exists_eq', and_true, true_iff]
+    exact ⟨r, List.mem_of_getElem? hr, c, List.mem_of_getElem? hc, hpc⟩
+
+theorem checkPhase_names_offender (g : G) (i j : Nat) (h : checkPhase g = .raised i j) :
+    ∃ r c, g.data[i]? = some r ∧ r[j]? = some c ∧ isUnphasedHet g c = true := by
+  unfold checkPhase at h
+  cases hp : g.hasPhase with
+  | false => simp [hp] at h
+  | true =>
+    simp only [hp, Bool.not_true, Bool.false_eq_true, ↓reduceIte] at h
+    rcases nonzero_cases (isUnphasedHet g) g.data with ⟨h0, _⟩ | ⟨i', j', rest, h0, hex⟩
+    · rw [h0] at h; cases h
+    · rw [h0] at h; simp only [Out.raised.injEq] at h
+      obtain ⟨rfl, rfl⟩ := h; exact hex
+
+/-- otherwise only the phase plane is stripped: samples, variants, alleles untouched -/
+theorem checkPhase_strips (g : G) (hp : g.hasPhase = true)
+    (hall : ∀ r ∈ g.data, ∀ c ∈ r, isUnphasedHet g c = false) :
+    checkPhase g = .ok { g with hasPhase := false } := by
+  unfold checkPhase
+  simp only [hp, Bool.not_true, Bool.false_eq_true, ↓reduceIte]
+  rw [(nonzero_nil_iff _ _).mpr hall]
+
+/-! ### check_maf -/
+
+/-- the reported frequencies: `min(k, 2n-k)/2n` with `k` the number of non-reference strands -/
+theorem checkMaf_formula (num den : Nat) (warnOnly : Bool) (g : G) :
+    (checkMaf num den false warnOnly g).2 =
+      (List.range g.vars.length).map (fun j => (min (altCount g.data j) (2*g.data.length - altCount g.data j), 2*g.data.length)) := by
+  unfold checkMaf
+  simp only [List.map_map, Function.comp_def]
+  split
+  · rfl
+  · simp only [Bool.false_eq_true, ↓reduceIte]; split <;> rfl
+
+/-- a variant index is "rare" iff its minor-allele frequency is below the threshold -/
+def rareIdx (num den : Nat) (g : G) (j : Nat) : Prop :=
+  j < g.vars.length ∧ rare g.data.length (altCount g.data j) num den = true
+
+theorem mem_rare_list (num den : Nat) (g : G) (j : Nat) :
+    j ∈ ((((List.range g.vars.length).map (altCount g.data)).zipIdx.filter
+        (fun kj => rare g.data.length kj.1 num den)).map (·.2)) ↔ rareIdx num den g j := by
+  simp only [List.mem_map, List.mem_filter, Prod.exists, exists_and_right, exists_eq_right, rareIdx]
+  constructor
+  · rintro ⟨k, hm, hr⟩
+    have := List.mem_zipIdx_iff_getElem?.mp hm
+    simp only [List.getElem?_map, List.getElem?_range, Option.map_eq_some_iff] at this
+    obtain ⟨j', hj', rfl⟩ := this
+    by_cases hlt : j < g.vars.length
+    · rw [List.getElem?_range hlt] at hj'; cases hj'; exact ⟨hlt, hr⟩
+    · rw [List.getElem?_eq_none (by simpa using hlt)] at hj'; cases hj'
+  · rintro ⟨hlt, hr⟩
+    refine ⟨altCount g.data j, List.mem_zipIdx_iff_getElem?.mpr ?_, hr⟩
+    simp [List.getElem?_map, List.getElem?_range hlt]
+
+theorem checkMaf_raises_iff (num den : Nat) (g : G) :
+    (∃ i j, (checkMaf num den false false g).1 = .raised i j) ↔ ∃ j, rareIdx num den g j := by
+  unfold checkMaf
+  simp only
+  cases hidx : ((((List.range g.vars.length).map (altCount g.data)).zipIdx.filter
+        (fun kj => rare g.data.length kj.1 num den)).map (·.2)) with
   | nil =>
-    -- nothing is missing: nothing is removed
-    have hnone : ∀ r ∈ rows, rowMissing r = false := by
-      have : ∀ (k : Nat) (rows : List Row), nonzeroFrom k rows = [] → ∀ r ∈ rows, rowMissing r = false := by
-        intro k rows
-        induction rows generalizing k with
-        | nil => simp
-        | cons r rest ih =>
-          intro hnil x hx
-          simp only [nonzeroFrom, List.append_eq_nil_iff, List.map_eq_nil_iff] at hnil
-          rcases List.mem_cons.mp hx with rfl | hx'
-          · exact (rowHits_nil_iff _ 0).mp hnil.1
-          · exact ih (k+1) hnil.2 x hx'
-      exact this 0 rows hnz
-    refine ⟨samples, rows, rfl, ?_, ?_⟩
-    · exact (List.filter_eq_self.mpr (fun r hr => by simp [hnone r hr])).symm
-    · have : (samples.zip rows).filter (fun pr => !rowMissing pr.2) = samples.zip rows :=
-        List.filter_eq_self.mpr (fun pr hpr => by simp [hnone pr.2 (List.of_mem_zip hpr).2])
-      rw [this, List.map_fst_zip (by omega)]
-  | cons p rest =>
-    obtain ⟨i, j⟩ := p
+    simp only [reduceCtorEq, exists_false, false_iff, not_exists]
+    intro j hj
+    have := (mem_rare_list num den g j).mpr hj
+    rw [hidx] at this; cases this
+  | cons j rest =>
+    simp only [Bool.false_eq_true, ↓reduceIte, Out.raised.injEq, exists_and_left, exists_eq',
+      and_true, true_iff]
+    exact ⟨j, (mem_rare_list num den g j).mp (by rw [hidx]; exact List.mem_cons_self)⟩
+
+theorem checkMaf_names_offender (num den : Nat) (g : G) (i j : Nat)
+    (h : (checkMaf num den false false g).1 = .raised i j) : rareIdx num den g j := by
+  unfold checkMaf at h
+  simp only at h
+  cases hidx : ((((List.range g.vars.length).map (altCount g.data)).zipIdx.filter
+        (fun kj => rare g.data.length kj.1 num den)).map (·.2)) with
+  | nil => rw [hidx] at h; cases h
+  | cons j' rest =>
+    rw [hidx] at h
+    simp only [Bool.false_eq_true, ↓reduceIte, Out.raised.injEq] at h
+    obtain ⟨_, rfl⟩ := h
+    exact (mem_rare_list num den g j').mp (by rw [hidx]; exact List.mem_cons_self)
+
+/-- discard mode removes exactly the variants below the threshold from data, variants, the returned
+    frequencies and the ancestry array -/
+theorem checkMaf_discard (num den : Nat) (warnOnly : Bool) (g : G) :
+    ∃ g' drop, (checkMaf num den true warnOnly g).1 = .ok g' ∧
+      (∀ j, drop j = true ↔ rareIdx num den g j) ∧
+      g'.data = g.data.map (fun r => keepIdx r drop) ∧ g'.vars = keepIdx g.vars drop ∧
+      g'.anc = g.anc.map (fun a => a.map (fun r => keepIdx r drop)) ∧ g'.samples = g.samples := by
+  unfold checkMaf
+  simp only
+  cases hidx : ((((List.range g.vars.length).map (altCount g.data)).zipIdx.filter
+        (fun kj => rare g.data.length kj.1 num den)).map (·.2)) with
+  | nil =>
+    refine ⟨g, fun _ => false, rfl, fun j => ?_, ?_, ?_, ?_, rfl⟩
+    · simp only [Bool.false_eq_true, false_iff]; intro hj
+      have := (mem_rare_list num den g j).mpr hj
+      rw [hidx] at this; cases this
+    · simp only [keepIdx_none _ _ (fun _ _ => rfl), List.map_id']
+    · exact (keepIdx_none _ _ (fun _ _ => rfl)).symm
+    · cases g.anc with
+      | none => rfl
+      | some a => simp only [Option.map_some, keepIdx_none _ _ (fun _ _ => rfl), List.map_id']
+  | cons j rest =>
     simp only [↓reduceIte]
-    have h1 := delete_eq_filter (α := String) 0 rows samples [] h (by simp)
-    have h2 := delete_eq_filter (α := Row) 0 rows rows [] rfl (by simp)
-    simp only [List.nil_append, hnz] at h1 h2
-    refine ⟨_, _, rfl, ?_, h1⟩
-    rw [h2]
-    exact zip_self_filter (fun r => !rowMissing r) rows
+    refine ⟨_, fun j' => (j :: rest).contains j', rfl, ?_, rfl, rfl, rfl, rfl⟩
+    intro j'
+    rw [← hidx]
+    simp only [List.contains_eq_mem, decide_eq_true_eq]
+    exact mem_rare_list num den g j'
 
 end QC
